@@ -52,6 +52,13 @@ def queries(tier):
                     unwind_default=n + 4, unwind={"push": 3, "harness": 2 * n + 12},
                     bounds="message 0..%d bytes, every byte value; 2 pushes (thorough: 3) at all split points; initial capacity 0..%d symbolic then full" % (n, 2 * n + 6),
                     outside="messages longer than %d bytes in this shape (block boundaries at 254/223: step harness)" % n))
+    qs.append(Q("encoder_step_cobs", "C01/encstep.c", units=["mptcore/convert/encode_cobs.c", "mptcore/message/memchr.c"], unwind_default=5,
+                unwind={"harness.1": 270, "harness.3": 270, "harness": 5}, flags=["--max-field-sensitivity-array-size", "300"], stubs=["libc.c"], timeout=900,
+                bounds="plain COBS encoder at the real block size: any state (0..3 finished bytes, open block of 0..254), one push of 1..3 arbitrary bytes, ample space",
+                outside="pushes above 3 bytes per call from an arbitrary state (round trip covers whole messages up to N); capacity-limited pushes (round trip); COBS/R, ZPE step functions"))
+    qs.append(Q("encoder_terminate_cobs", "C01/encstep.c", units=["mptcore/convert/encode_cobs.c", "mptcore/message/memchr.c"], harness_defines={"TERMINATE": 1}, unwind_default=5,
+                unwind={"harness.1": 270, "harness.2": 270, "harness": 5}, flags=["--max-field-sensitivity-array-size", "300"], stubs=["libc.c"], timeout=600,
+                bounds="plain COBS encoder: message termination from any state (0..3 finished bytes already in the buffer, open block of 0..254)", outside="COBS/R, ZPE terminations from arbitrary states"))
     for pre in ((0, 254) if tier == "quick" else (0, 254, 255, 258)):
         qs.append(Q("python_encode_cobs_pre%d" % pre, "C01/python.c", units=[], harness_defines={"PREFIX": pre, "T": 4},
                     unwind_default=pre + 20, unwind={"ref_decode.0": 12 + max(0, pre - 254), "ref_decode.1": 3, "ref_decode.2": 10 + max(0, pre - 254), "py_encode_cobs": 2, "py_encode_cobs.4": pre + 6}, cxx=py_gen, stubs=[], flags=["--max-field-sensitivity-array-size", "300"],
